@@ -1,4 +1,5 @@
 import Proofs.FilterInter2
+import Proofs.FilterHeader
 /-!
 # C11 — Filtering keeps exactly the n-grams a restricted decoder can query
 
@@ -66,6 +67,16 @@ theorem header_counts (a : Arpa) (vs : Item → Verdict) (k : Nat) :
       countsHeader ((a.orders.map (keptLines vs k)).map List.length) ++ List.replicate pad 10 ++
       sectionsBody 1 (a.orders.map (keptLines vs k)) ++ bEnd ++ [10] :=
   ⟨_, rfl⟩
+
+/-- **header_counts at the level of `ARPAOutput`'s counter**: the calls that reach output file
+`k` during the sequential run (= during every threaded run, C12 `ctl_output_arpa`), fed to the
+model of `ARPAOutput` (`BeginLength` resets the counter, `AddNGram` increments it, `EndLength`
+stores it per order, `Finish` writes the counts over the reservation), produce exactly
+`arpaFile`: the header counts the lines actually written in each section. -/
+theorem header_counts_counter (a : Arpa) (vs : Item → Verdict) (k : Nat) :
+    KV.FilterDrv.renderArpa (countsHeader a.counts).length
+        (KV.FilterCtl.fileLog k (KV.FilterCtl.seqLog vs (KV.FilterCtl.arpaProgram a.orders))) = arpaFile a vs k :=
+  KV.FilterDrv.renderArpa_seqLog a vs k
 
 /-! ## which n-grams are kept -/
 
